@@ -151,6 +151,8 @@ type node struct {
 	Info webdav.FileInfo // MemFS only: what the backend reports
 	// Openable: Info.Size == len(Data) (MemFS), so that GET is well-formed.
 	Openable bool
+	// Probe: a file whose length sits on a copy-buffer boundary; always openable.
+	Probe bool
 }
 
 func absPath(segs []string) string { return "/" + strings.Join(segs, "/") }
@@ -227,7 +229,12 @@ func genData(r *rand.Rand, big bool) []byte {
 // genTree builds the resource tree for one scenario: the chain of prefix
 // collections, decoys outside the prefix, and a hostile tree (depth <= 4)
 // below the prefix.
-func genTree(r *rand.Rand, prefix []string, bigFiles int, wide bool) *tree {
+// probeSizes sit around the boundaries a copy loop may have: empty, one byte,
+// around the 7-byte reads of the SmallReads reader, around 32 KiB and 64 KiB,
+// a few hundred KiB.
+var probeSizes = []int{0, 1, 6, 7, 8, 14, 32767, 32768, 32769, 65535, 65536, 65537, 98304, 200000, 262144, 400000}
+
+func genTree(r *rand.Rand, prefix []string, bigFiles int, wide bool, probes int) *tree {
 	t := &tree{byPath: map[string]*node{}, Prefix: prefix}
 	t.add(&node{Segs: nil, Dir: true})
 	for i := range prefix {
@@ -277,6 +284,15 @@ func genTree(r *rand.Rand, prefix []string, bigFiles int, wide bool) *tree {
 			bigFiles--
 		}
 		t.add(&node{Segs: s, Data: genData(r, big)})
+	}
+	for i := 0; i < probes; i++ {
+		s := cat(dirs[r.Intn(len(dirs))], genSeg(r))
+		if t.has(s) {
+			continue
+		}
+		b := make([]byte, probeSizes[r.Intn(len(probeSizes))])
+		r.Read(b)
+		t.add(&node{Segs: s, Data: b, Probe: true})
 	}
 	return t
 }
@@ -491,7 +507,7 @@ func genInfo(r *rand.Rand, n *node) {
 		n.Info.Size = genSize(r)
 		return
 	}
-	if r.Intn(3) == 0 {
+	if n.Probe || r.Intn(3) == 0 {
 		n.Info.Size = int64(len(n.Data))
 		n.Openable = true
 	} else {
